@@ -158,6 +158,26 @@ let table : (string * kname) list = [
   "awkward_UnionArray_fillindex", K_UnionArray_fillindex;
   "awkward_ListArray_fill", K_ListArray_fill;
   "awkward_unique", K_unique;
+  "awkward_ListOffsetArray_reduce_nonlocal_outstartsstops_64", K_reduce_nonlocal_outstartsstops;
+  "awkward_NumpyArray_copy", K_NumpyArray_copy;
+  "awkward_NumpyArray_contiguous_copy", K_NumpyArray_contiguous_copy;
+  "awkward_NumpyArray_getitem_next_null", K_NumpyArray_getitem_next_null;
+  "awkward_NumpyArray_fill_tocomplex", K_NumpyArray_fill_tocomplex;
+  "awkward_NumpyArray_fill_fromcomplex", K_NumpyArray_fill_fromcomplex;
+  "awkward_NumpyArray_rearrange_shifted", K_NumpyArray_rearrange_shifted;
+  "awkward_NumpyArray_subrange_equal", K_NumpyArray_subrange_equal;
+  "awkward_reduce_sum_complex", K_reduce_sum_complex;
+  "awkward_reduce_prod_complex", K_reduce_prod_complex;
+  "awkward_reduce_min_complex", K_reduce_min_complex;
+  "awkward_reduce_max_complex", K_reduce_max_complex;
+  "awkward_reduce_argmin_complex", K_reduce_argmin_complex;
+  "awkward_reduce_argmax_complex", K_reduce_argmax_complex;
+  "awkward_reduce_countnonzero_complex", K_reduce_countnonzero_complex;
+  "awkward_reduce_sum_bool_complex", K_reduce_sum_bool_complex;
+  "awkward_reduce_prod_bool_complex", K_reduce_prod_bool_complex;
+  "awkward_content_reduce_zeroparents_64", K_content_reduce_zeroparents;
+  "awkward_reduce_argmax_bool_64", K_reduce_argmax;
+  "awkward_reduce_argmin_bool_64", K_reduce_argmin;
 ]
 
 let handle (line : string) : string =
